@@ -214,7 +214,6 @@ type world struct {
 	links    map[int]linkInfo
 	rotated  int
 	cri      bool // cfg front = 1
-	noLsof   bool // the case has lz4 files: the helper runs without an lsof in PATH (see runPhase)
 }
 
 type linkInfo struct {
@@ -595,12 +594,9 @@ func runPhase(w *world, cfgS hx.Sx, run int, ph phase, snapPrev snapshot, trunca
 		cmd = exec.Command(exe, args...)
 	}
 	cmd.Env = append(os.Environ(), "LOG_LEVEL=fatal", "GOMAXPROCS=2")
-	if w.noLsof {
-		// worker.go asks `lsof <file>` before it reads an lz4 file and takes ANY line of the answer that contains the letter w
-		// for a writer - "<dir>/watch/..." always does (notes/finding-C06-lz4-being-written.md). Without an lsof in PATH (the
-		// usual situation in a container image) the question fails before a fork and the file is read.
-		cmd.Env = append(cmd.Env, "PATH="+filepath.Join(w.dir, "nobin"))
-	}
+	// (worker.go asks `lsof <file>` before it reads an lz4 file; the helper keeps the PATH of the check, so the real lsof
+	// answers when it is installed: the watched directory "<dir>/watch/..." contains the letter w, which was taken for a
+	// writer before /repo fix 353d84e, notes/finding-C06-lz4-being-written.md)
 	errf, _ := os.Create(filepath.Join(w.dir, fmt.Sprintf("child%d.err", run)))
 	cmd.Stdout, cmd.Stderr = errf, errf
 	cmd.SysProcAttr = &syscall.SysProcAttr{Setpgid: true}
@@ -887,14 +883,6 @@ func exec03(which int, cs hx.Sx) hx.Sx {
 		_ = os.MkdirAll(filepath.Join(w.dir, "real2"), 0o755)
 		if err := os.Symlink(filepath.Join(w.dir, "real2"), filepath.Join(w.dir, "watch2")); err != nil {
 			w.bad = err.Error()
-		}
-	}
-	for _, ph := range phases {
-		for _, o := range ph.down {
-			w.noLsof = w.noLsof || isLz4(o.name)
-		}
-		for _, l := range ph.live {
-			w.noLsof = w.noLsof || isLz4(l.op.name)
 		}
 	}
 	var runs []hx.Sx
